@@ -820,8 +820,8 @@ def jobs(tier, seed):
     for k in range(ns):
         out.append(('single-%02d' % k, 'job_single', (tier, k, ns)))
     if quick:
-        plan2 = [('one', [1, 2, None], (0, 1, 2), 12)]
-        plan3 = [(12, [1, 2, None], 3, 2, 12)]
+        plan2 = [('one', [1, 2, None], (0, 1, 2), 16)]
+        plan3 = [(12, [1, 2, None], 3, 2, 24)]
     else:
         plan2 = [('all', [1, 2, None, 'a'], (0, 1, 2), 48), ('one', [1, 2, None, 'a'], (3,), 16)]
         plan3 = [(16, [1, 2, None], 3, 3, 32), (12, [1, None], 4, 2, 32)]
